@@ -67,11 +67,7 @@ func (m *Mast) savePathForRoot(ctx context.Context, path []pathEntry) error {
 			entry.node.Link[entry.linkIndex] = nil
 		}
 	}
-	if !path[0].node.isEmpty() {
-		m.root = path[0].node
-	} else {
-		m.root = nil
-	}
+	m.root = path[0].node
 	return nil
 }
 
